@@ -218,7 +218,15 @@ namespace OP2Utility::XFile
 
 	std::string GetFilename(const std::string& pathStr)
 	{
-		return fs::path(pathStr).filename().string();
+		fs::path path(pathStr);
+
+		// A path consisting only of a root has no filename
+		// (std::experimental::filesystem reports the root directory itself as the filename)
+		if (!path.has_relative_path()) {
+			return "";
+		}
+
+		return path.filename().string();
 	}
 
 	bool PathsAreEqual(std::string pathStr1, std::string pathStr2)
